@@ -28,6 +28,7 @@ RULE = (
     "or when a history repeats a (program, options) pair after a different one was converted (state machine); "
     "distinct by sha1 of (source, options) / of the history"
 )
+RULE += ' Option sets include per-name size maps; in histories one configuration object can be kept for all conversions of the process and a request re-converted with another default size.'
 ASSUMPTIONS = [
     "PYTHONHASHSEED values tried are a sample, not all 2^32",
     "decoders are exercised on the repository's fixture files and on generated images of C16/C17 shape",
